@@ -143,7 +143,7 @@ class Runner:
         op = rq["op"]
         cons = rq.get("cons", [])
         if op == "update":
-            return Update(gb.build_cons(cons, vals, flags))
+            return Update(gb.build_cons(cons, vals, flags, rq.get("_form", 0)))
         if op == "regenerate":
             return Regenerate(gb.build_sel(rq["sel"]))
         if op == "empty":
@@ -205,7 +205,7 @@ class Runner:
                   "pre": self.proj_trace(pid, tr) if tr is not None else T0, "post": T0, "w": 0,
                   "assess": {"status": "none", "score": 0, "ret": gb.NN}, "disc": [], "hasdisc": False,
                   "retdiff": [], "undo": {"status": "none", "post": T0, "w": 0},
-                  "alt": {"status": "none", "post": T0, "w": 0}, "alt2": {"status": "none", "post": T0, "w": 0}, "alt3": {"status": "none", "post": T0, "w": 0}, "altm": {"status": "none", "post": T0, "w": 0}, "flagmode": "none",
+                  "alt": {"status": "none", "post": T0, "w": 0}, "alt2": {"status": "none", "post": T0, "w": 0}, "alt3": {"status": "none", "post": T0, "w": 0}, "altm": {"status": "none", "post": T0, "w": 0}, "flagmode": "none", "consform": 0,
                   "subt": {"choices": [], "score": 0}, "w2": 0, "haspre": tr is not None, "extra": []}
             try:
                 newtr = self.step(ev, rq, e, p, tr, cur_argsV, k1, k2, k3)
@@ -236,9 +236,11 @@ class Runner:
 
             def full(a):          # the underlying function's arguments
                 return (tuple(a) + stored) if p["n"] == 2 else (stored + tuple(a))
+        form = 1 if (ev["tid"] % 3 == 1 and op in ("generate", "update")) else 0
+        ev["consform"] = form
         masked = any(c["f"] in ("T", "F") for c in cons)
         traced_flags = masked and (ev["tid"] % 2 == 1)
-        struct = [[c["p"], c["f"] if not traced_flags else ("M" if c["f"] != "-" else "-")] for c in cons]
+        struct = [form] + [[c["p"], c["f"] if not traced_flags else ("M" if c["f"] != "-" else "-")] for c in cons]
         vals = [jnp.array(c["v"], dtype=jnp.int32) for c in cons]
         flags = [jnp.array(c["f"] == "T") for c in cons] if traced_flags else None
         ev["flagmode"] = "traced" if traced_flags else ("concrete" if masked else "none")
@@ -260,7 +262,7 @@ class Runner:
                   ev["alt"] = {"status": "ok", "w": 0, "post": {"args": ev["post"]["args"], "choices": gb.proj_chm(ch, e["addrs"]),
                                                               "score": gb.fx(sc), "ret": gb.proj_val(rv)}}
             else:
-                new, w = self.fn(_skey(pid, "imp", struct), lambda: (lambda k, v, fl, a: gf.importance(k, gb.build_cons(cons, v, fl), a)))(k1, vals, flags, args)
+                new, w = self.fn(_skey(pid, "imp", struct), lambda: (lambda k, v, fl, a: gf.importance(k, gb.build_cons(cons, v, fl, form), a)))(k1, vals, flags, args)
                 ev["post"] = self.proj_trace(pid, new)
                 ev["w"] = gb.fx(w)
                 if masked and "maskeq" in self.want:
@@ -320,6 +322,8 @@ class Runner:
         idx = jnp.array(rq.get("idx", 0))
         rkey = [op, rq.get("sub", ""), struct, rq["sel"] if op in ("regenerate", "index", "static") else None,
                 rq.get("idx", 0) if op == "static" else None, tags]
+
+        rq = dict(rq, _form=form)
 
         def mk_edit(rq_, ):
             def f(k, t, v, fl, i, a):
